@@ -59,7 +59,7 @@ def _plausible(r, what, sa):
         return 35, [{'type': R.P_IDi, 'id_type': 2, 'data': b'mallory'}, {'type': R.P_AUTH, 'method': 2, 'data': b'\0' * 32},
                     esp_sa, ts(R.P_TSi), ts(R.P_TSr)]
     if what == 'error':
-        return r.choice([35, 36, 37]), [{'type': R.P_NOTIFY, 'proto': 0, 'ntype': r.choice([7, 14, 24, 43, 44, 17, 35, 38]),
+        return r.choice([35, 36, 37]), [{'type': R.P_NOTIFY, 'proto': 0, 'ntype': r.choice([1, 4, 4, 5, 7, 9, 11, 14, 17, 24, 34, 35, 36, 37, 38, 39, 40, 41, 43, 44, 45, 16384, 16393]),
                                           'spi': b'', 'data': b'\0\x13' if r.random() < 0.3 else b''}]
     if what == 'unknown_exch':
         return r.choice([33, 38, 99, 0, 255]), []
